@@ -120,6 +120,7 @@ class Executor:
         self.muted = 0
         self.view_st = None
         self.inlined_nodes = {}
+        self.validity_ids = set()
 
     # ------------------------------------------------------------------ ids / obligations
     def oid(self, kind):
@@ -132,6 +133,7 @@ class Executor:
         if self.spec or self.muted:
             return
         o = Obligation(f"{self.c.qual}/{oid}", st.pc, goal, self.cur_line, note)
+        o.core = [h for h in st.pc if h.get_id() not in self.validity_ids]    # without "reference is allocated" facts
         o.inputs = dict(self.inputs)
         o.trivial = z3.is_true(goal) or (not z3.is_quantifier(goal) and z3.is_true(simp(goal)))
         self.obls.append(o)
@@ -200,10 +202,15 @@ class Executor:
 
     def valid_ref(self, st, v):
         """Well-typed heap assumption: every reference read from the state is allocated."""
-        if self.spec and any(k.startswith("$q_") for k in getattr(self, "_cur_spec_env", ())):
-            return v      # under a quantifier of a contract expression: no side facts (they would guard the formula)
+        bound = getattr(self, "_cur_bound_ids", None)
+        if self.spec and bound and isinstance(v, Val) and v.t.mutable:
+            from .calls import _mentions
+            if _mentions(v.z, bound):
+                return v  # a reference depending on a quantified variable: no side fact (it would guard the formula)
         if isinstance(v, Val) and v.t.mutable:
-            st.assume(z3.And(v.z >= 0, v.z < st.next_ref))
+            z = z3.And(v.z >= 0, v.z < st.next_ref)
+            self.validity_ids.add(z.get_id())
+            st.assume(z)
         return v
 
     # ------------------------------------------------------------------ coercion
